@@ -89,6 +89,41 @@ async def main():
                         elif name == 'first' and (got[1] is not (inc_rs[0].result if inc_rs else None)):
                             bad.append((tag, name, 'first %r != %r' % (got[1], inc_rs[0].result if inc_rs else None)))
         await bus.stop(timeout=0)
+    # flat views: dict / list valued results merged in handler order
+    FLAT = [({'a': 1}, {'b': 2}, 'x'), ({'a': 1}, {'a': 3, 'c': 4}, None), ({}, {'k': 0}, {'z': 9}), ([1, 2], [3], 'x'), ([], [None, 5], [6]), ({'a': 1}, [7], {'b': 2})]
+    for fi, vals in enumerate(FLAT):
+        bus = EventBus(name='RpFlat%d' % fi)
+        for i, v in enumerate(vals):
+            def mk(v=v, i=i):
+                async def h(e): return v
+                h.__name__ = 'f%d' % i
+                return h
+            bus.on(AE, mk())
+        ev = bus.dispatch(AE())
+        await asyncio.wait_for(ev.event_completed_signal.wait(), 5)
+        results = list(ev.event_results.values())
+        dicts = [r.result for r in results if isinstance(r.result, dict) and r.result is not None and r.error is None and r.result != {} or (isinstance(r.result, dict) and r.error is None)]
+        dicts = [r.result for r in results if isinstance(r.result, dict) and r.error is None and r.result]     # the default filter drops empty dicts (falsy is fine) - they add nothing
+        lists = [r.result for r in results if isinstance(r.result, list) and r.error is None]
+        for conflicts in (True, False):
+            want = {}
+            clash = False
+            for d in dicts:
+                if set(want) & set(d):
+                    clash = True
+                want.update(d)
+            got = await call(ev.event_results_flat_dict(raise_if_conflicts=conflicts, raise_if_none=False, timeout=2))
+            if clash and conflicts:
+                if got[0] != 'raise' or not isinstance(got[1], ValueError):
+                    bad.append((vals, 'flat_dict', 'expected ValueError on conflicting keys, got %r' % (got,)))
+            elif got[0] != 'ok' or got[1] != want:
+                bad.append((vals, 'flat_dict', '%r != %r' % (got, want)))
+        wantl = [x for l in lists for x in l]
+        gotl = await call(ev.event_results_flat_list(raise_if_none=False, timeout=2))
+        if gotl[0] != 'ok' or len(gotl[1]) != len(wantl) or any(a is not b for a, b in zip(gotl[1], wantl)):
+            bad.append((vals, 'flat_list', '%r != %r' % (gotl, wantl)))
+        await bus.stop(timeout=0)
+        n += 1
     print('cases', n, 'disagreements', len(bad))
     for b in bad[:6]:
         print('  ', b)
